@@ -65,6 +65,10 @@ def _mk(kind, type_id, coord):
     from eos import Ship, Drone, FighterSquad, Coordinates
     it = {'ship': Ship, 'drone': Drone, 'fighter': FighterSquad}[kind](type_id)
     it.coordinate = Coordinates(*coord)
+    if sum(map(lambda v: hash(v) % 7, coord)) % 2:
+        # where an item looks has nothing to do with where it is
+        from eos import Orientation
+        it.orientation = Orientation(0, -3, 4.5)
     return it
 
 
@@ -101,6 +105,11 @@ def _gen_case(rnd):
         twin = {-1: -2, -2: -1, 0: 2 ** 61 - 1, 1: 2 ** 61, -1.0: -2.0}
         c1 = tuple(rnd.choice([-1, -2, 0, 1, 3, -1.0]) for _ in range(3))
         c2 = tuple(twin.get(v, v) if rnd.random() < 0.6 else v for v in c1)
+    if rnd.random() < 0.1:
+        # integers beyond 2**53 that lie close together (exact in Python's integer arithmetic, lost by any float())
+        big = rnd.choice([2 ** 53, 10 ** 16, -2 ** 60, 2 ** 53 + 1])
+        c1 = (big + rnd.randint(-2, 2), rnd.choice([0, big]), rnd.randint(-5, 5))
+        c2 = (c1[0] + rnd.choice([1, 3, -1]), c1[1] + rnd.choice([0, 4]), c1[2] + rnd.choice([0, 12]))
     p = (0, 0) if rnd.random() < 0.7 else (rnd.randrange(4), rnd.randrange(4))
     return {'p1': p[0], 'p2': p[1], 'c1': c1, 'c2': c2, 'r1': rnd.choice(RADII), 'r2': rnd.choice(RADII),
             'k1': rnd.choice(['ship', 'drone', 'fighter']), 'k2': rnd.choice(['ship', 'drone', 'fighter'])}
